@@ -31,11 +31,19 @@ class EngineError(Exception):
 
 STATS = {"solver_calls": 0, "solver_s": 0.0, "paths": 0}
 
-SOLVER_TIMEOUT_MS = 8000
+SOLVER_TIMEOUT_MS = 10000
+FEAS_TIMEOUT_MS = 1500
 
 
 def is_z3(v):
     return isinstance(v, z3.ExprRef)
+
+
+def as_sort(v, like):
+    """coerce an arithmetic value to the sort of `like` (Int -> Real)"""
+    if v.sort() != like.sort() and like.sort() == z3.RealSort() and v.sort() == z3.IntSort():
+        return z3.ToReal(v)
+    return v
 
 
 def to_z3(v):
@@ -52,7 +60,7 @@ def to_z3(v):
         f = Fraction(v)
         return z3.Q(f.numerator, f.denominator)
     if isinstance(v, str):
-        return z3.StringVal(v)
+        return str_lit(v)
     raise Unsupported("cannot lift %r to z3" % (v,))
 
 
@@ -97,7 +105,39 @@ class ElemType:
 
 REAL = z3.RealSort()
 INT = z3.IntSort()
-STR = z3.StringSort()
+# Strings are an UNINTERPRETED sort: praatIO only compares, strips, orders and concatenates labels and
+# names; z3's sequence theory is erratic on these queries (measured), EUF is not.  Literals are distinct
+# constants, concatenation / length / strip / rank are uninterpreted functions with the axioms the
+# proofs need instantiated by the engine (A4).
+STR = z3.DeclareSort("Str")
+_LITS = {}
+S_CAT = z3.Function("str.cat", STR, STR, STR)
+S_LEN = z3.Function("str.len", STR, z3.IntSort())
+S_ITOS = z3.Function("str.from_int", z3.IntSort(), STR)
+S_CONTAINS = z3.Function("str.contains", STR, STR, z3.BoolSort())
+S_PREFIX = z3.Function("str.prefixof", STR, STR, z3.BoolSort())
+S_SUFFIX = z3.Function("str.suffixof", STR, STR, z3.BoolSort())
+S_REPLACE = z3.Function("str.replace_all", STR, STR, STR, STR)
+
+
+def str_lit(s):
+    c = _LITS.get(s)
+    if c is None:
+        c = z3.Const("str!" + repr(s), STR)
+        _LITS[s] = c
+    return c
+
+
+def lit_value(e):
+    """python string of a literal constant, else None"""
+    if z3.is_const(e) and e.sort() == STR:
+        n = e.decl().name()
+        if n.startswith("str!"):
+            for k, v in _LITS.items():
+                if v.eq(e):
+                    return k
+    return None
+
 BOOL = z3.BoolSort()
 
 
@@ -183,17 +223,27 @@ class LTerm:
         if idx is None:
             idx = ctx.fresh_int("i")
         idx = to_z3(idx)
-        for m in self.members:
-            if m.idx.eq(idx) and m.cond.eq(cond):
-                return m
+        m = self.find_member(idx, cond)
+        if m is not None:
+            return m
         m = Member(idx, self.at(idx), cond)
         self.members.append(m)
+        self._mkeys[(idx.get_id(), cond.get_id())] = m
         ctx.assume(z3.Implies(cond, z3.And(idx >= 0, idx < self.length())))
         self.define_member(m)
         return m
 
     def define_member(self, m):
         pass
+
+    def find_member(self, idx, cond):
+        mk = getattr(self, "_mkeys", None)
+        if mk is None or len(mk) != len(self.members):
+            mk = {}
+            for m in self.members:
+                mk[(m.idx.get_id(), m.cond.get_id())] = m
+            self._mkeys = mk
+        return mk.get((to_z3(idx).get_id(), cond.get_id()))
 
     def any_member(self, idx=None):
         """member at an ARBITRARY index: valid only where the index is in range (never forces len > 0)"""
@@ -269,13 +319,19 @@ class FM(LTerm):
         # standing for src.at(jvar) (robust substitution, independent of z3's term normalisation)
         self.binds = list(binds)
         self.paths = paths
-        self.base = z3.Function("base!" + self.uid, INT, INT)
-        self._len = self.base(src.length())
-        ctx = self.ctx
-        ctx.assume(self.base(z3.IntVal(0)) == 0)
-        ctx.assume(self._len >= 0)
-        self._mapped = []
         self.maxouts = max([len(p.outs) for p in paths] + [0])
+        # a pure map (every path emits exactly one element): output index == source index
+        self.is_map = bool(paths) and all(len(p.outs) == 1 for p in paths)
+        ctx = self.ctx
+        self._mapped = []
+        if self.is_map:
+            self.base = lambda j: to_z3(j)
+            self._len = src.length()
+        else:
+            self.base = z3.Function("base!" + self.uid, INT, INT)
+            self._len = self.base(src.length())
+            ctx.assume(self.base(z3.IntVal(0)) == 0)
+            ctx.assume(self._len >= 0)
 
     def length(self):
         return self._len
@@ -289,6 +345,8 @@ class FM(LTerm):
         return self.interp.elem_map(out, lambda e: self.inst(e, j))
 
     def count(self, j):
+        if self.is_map:
+            return z3.IntVal(1)
         c = z3.IntVal(0)
         for p in self.paths:
             if p.outs:
@@ -316,6 +374,9 @@ class FM(LTerm):
         for (om) in self._mapped:
             if om.idx.eq(sm.idx) and om.cond.eq(sm.cond):
                 return
+        if self.is_map:
+            self._mapped.append(sm)
+            return
         cnt = self.count(sm.idx)
         ctx.assume(z3.Implies(sm.cond, z3.And(self.base(sm.idx) >= 0, self.base(sm.idx) + cnt <= self._len)))
         for om in self._mapped:
@@ -513,9 +574,54 @@ def mk_fm(interp, src, jvar, paths, etype, binds=()):
         key = None
     if key is not None and key in ctx.hc:
         return ctx.hc[key]
+    # identity map (e.g. re-normalising entries that are already normalised): the list itself
+    if (src.etype is not None and etype is not None and binds and paths and all(len(p.outs) == 1 for p in paths)
+            and src.etype.kind == etype.kind and src.etype.ntcls is etype.ntcls
+            and repr(src.etype.sorts if etype.kind == "tuple" else src.etype.sort)
+            == repr(etype.sorts if etype.kind == "tuple" else etype.sort) and ctx.unify_fms):
+        consts = [c_ for c_, _ in binds]
+        n = len(interp.elem_parts(src.at(jvar)))
+        if len(consts) == n:
+            goal = []
+            for p in paths:
+                parts = interp.elem_parts(interp.coerce_elem(p.outs[0], etype))
+                goal.append(z3.Implies(p.guard, z3.And([a == b for a, b in zip(parts, consts)])))
+            goal = z3.substitute(z3.And(goal), *binds)
+            ctx.unify_fms = False
+            ctx.quick_mode = True
+            try:
+                with ctx.scoped():
+                    gm = src.any_member(jvar)
+                    ident = ctx.entails(z3.Implies(gm.cond, goal))
+            finally:
+                ctx.unify_fms = True
+                ctx.quick_mode = False
+            if ident:
+                if key is not None:
+                    ctx.hc[key] = src
+                return src
     t = FM(interp, src, jvar, paths, etype, binds)
     if key is not None:
         ctx.hc[key] = t
+    # semantic unification: an FM over the same source that is provably the same list (pointwise equal
+    # bodies) is the same term, so that witnesses / bounds computed by the real body and by the spec meet
+    if ctx.unify_fms and etype is not None:
+        from . import listops
+        for o in list(ctx.fm_terms):
+            if o.src is src and o.maxouts == t.maxouts and repr(o.etype) == repr(etype):
+                ctx.unify_fms = False
+                ctx.quick_mode = True
+                try:
+                    with ctx.scoped():
+                        ok, _ = listops.same_fm(interp, o, t)
+                finally:
+                    ctx.unify_fms = True
+                    ctx.quick_mode = False
+                if ok:
+                    if key is not None:
+                        ctx.hc[key] = o
+                    return o
+        ctx.fm_terms.append(t)
     return t
 
 
@@ -602,7 +708,16 @@ class Ctx:
         self.children = 0
         self.inputs = {}
         self.hc = {}
-        self.fwd_budget = 400
+        self.fm_terms = []
+        self.links = []
+        self._strip_seen = set()
+        self._strip_visited = set()
+        self.quick_mode = False
+        self._nlits = 0
+        self.gs = {}
+        self.templates = {}
+        self.unify_fms = True
+        self.fwd_budget = 1500
         if parent is not None:
             parent.ground()
             self.solver.add(parent.solver.assertions())
@@ -611,6 +726,10 @@ class Ctx:
             self._grounded = set(parent._grounded)
             self.inputs = parent.inputs
             self.hc = dict(parent.hc)
+            self.fm_terms = list(parent.fm_terms)
+            self.links = list(parent.links)
+            self.gs = {k: list(v) for k, v in parent.gs.items()}
+            self.templates = parent.templates
 
     # naming -----------------------------------------------------------
     def fresh_name(self, base):
@@ -628,7 +747,7 @@ class Ctx:
         return z3.Bool(self.fresh_name(base))
 
     def fresh_str(self, base):
-        return z3.String(self.fresh_name(base))
+        return z3.Const(self.fresh_name(base), STR)
 
     def fresh_const(self, base, sort):
         return z3.Const(self.fresh_name(base), sort)
@@ -651,6 +770,93 @@ class Ctx:
             return
         self.facts.append(fact)
         self.solver.add(fact)
+        if len(_LITS) != self._nlits:
+            self._literal_axioms()
+
+    def _literal_axioms(self):
+        lits = list(_LITS.items())
+        new = lits[self._nlits:]
+        old = lits[:self._nlits]
+        self._nlits = len(lits)
+        for i, (s, c) in enumerate(new):
+            self.solver.add(S_LEN(c) == len(s))
+            for (s2, c2) in old + new[:i]:
+                self.solver.add(c != c2)
+
+    def _strip_instances(self, fact):
+        """ground instances of  strip(strip(t)) == strip(t)  for every strip-application that appears
+        (replaces a quantified axiom: keeps the solver quantifier-free)"""
+        sf = getattr(self.interp, "strip_fn", None)
+        if sf is None or not self.interp.strip_used:
+            return
+        seen = self._strip_seen
+        visited = self._strip_visited
+        stack = [fact]
+        new = []
+        while stack:
+            e = stack.pop()
+            k = e.get_id()
+            if k in visited:
+                continue
+            visited.add(k)
+            if z3.is_app(e):
+                if e.decl().eq(sf):
+                    a = e.arg(0)
+                    if a.get_id() not in seen:
+                        seen.add(a.get_id())
+                        new.append(a)
+                stack.extend(e.children())
+            elif z3.is_quantifier(e):
+                stack.append(e.body())
+        for a in new:
+            self.solver.add(sf(sf(a)) == sf(a))
+
+    # ---- instantiation of schematic facts through cached templates -----------------------
+    def _template(self, t, fn, arity):
+        key = id(fn)
+        ent = self.templates.get(key)
+        if ent is not None and ent[0] is fn:
+            return ent[1]
+        et = t.etype
+        try:
+            phs = []
+            elems = []
+            for k in range(arity):
+                if et is None:
+                    elems.append(None)
+                else:
+                    e = self.interp.fresh_elem(self, et, "?p%d" % k)
+                    elems.append(e)
+                    phs.extend(self.interp.elem_parts(e))
+            if arity == 1:
+                ix = z3.Int("?ix")
+                expr = fn(elems[0], ix)
+                phs.append(ix)
+            else:
+                expr = fn(elems[0], elems[1])
+            if isinstance(expr, bool):
+                expr = z3.BoolVal(expr)
+            tpl = (phs, expr)
+        except Unsupported:
+            tpl = None
+        self.templates[key] = (fn, tpl)
+        return tpl
+
+    def inst1(self, t, fn, m):
+        tpl = self._template(t, fn, 1)
+        if tpl is None:
+            return fn(m.elem, m.idx)
+        phs, expr = tpl
+        vals = ([to_z3(p) for p in self.interp.elem_parts(m.elem)] if t.etype is not None else []) + [m.idx]
+        return z3.substitute(expr, *[(p, as_sort(v, p)) for p, v in zip(phs, vals)])
+
+    def inst2(self, t, fn, m1, m2):
+        tpl = self._template(t, fn, 2)
+        if tpl is None:
+            return fn(m1.elem, m2.elem)
+        phs, expr = tpl
+        vals = [to_z3(p) for p in self.interp.elem_parts(m1.elem)] + [to_z3(p) for p in self.interp.elem_parts(m2.elem)]
+        return z3.substitute(expr, *[(p, as_sort(v, p)) for p, v in zip(phs, vals)])
 
     def ground(self):
         """Instantiate schematic list facts on the member witnesses (to a fixpoint)."""
@@ -661,6 +867,24 @@ class Ctx:
             rounds += 1
             if rounds > 50:
                 raise EngineError("grounding does not terminate")
+            # linked terms (proved equal as lists): indices of interest are shared
+            for (t1, t2) in list(self.links):
+                for (a, b) in ((t1, t2), (t2, t1)):
+                    done = a.__dict__.setdefault("_linked_%d" % id(b), set())
+                    for m in list(a.members):
+                        if m.serial in done:
+                            continue
+                        done.add(m.serial)
+                        if b.find_member(m.idx, m.cond) is not None:
+                            continue
+                        if self.fwd_budget <= 0:
+                            continue
+                        self.fwd_budget -= 1
+                        bm_ = b.new_member(m.cond, m.idx)
+                        b.__dict__.setdefault("_linked_%d" % id(a), set()).add(bm_.serial)
+                        if a.etype is not None and b.etype is not None:
+                            self.assume(z3.Implies(m.cond, self.interp.elem_eq(m.elem, bm_.elem)))
+                        changed = True
             # forward propagation: images of source members in lists that carry universal facts
             flagged = set()
             work = [t for t in self.terms if (t.all_facts or t.pair_facts or t.adj_facts)]
@@ -678,19 +902,22 @@ class Ctx:
                     continue
                 if isinstance(t, FM):
                     done = t.__dict__.setdefault("_fwd", set())
+                    if len(t.src.members) == t.__dict__.get("_fwd_n", -1):
+                        continue
+                    have = set(id(m.origin[0]) for m in t.members if isinstance(m.origin, tuple))
                     for sm in list(t.src.members):
                         if sm.serial in done:
                             continue
                         done.add(sm.serial)
                         # members that were created *from* this FM (backward) already have their image
-                        if any(m.origin is not None and isinstance(m.origin, tuple) and m.origin[0] is sm
-                               for m in t.members):
+                        if id(sm) in have:
                             continue
                         if self.fwd_budget <= 0:
                             continue
                         self.fwd_budget -= 1
                         t.forward(sm)
                         changed = True
+                    t._fwd_n = len(t.src.members)
                 elif isinstance(t, Concat):
                     done = t.__dict__.setdefault("_fwd", set())
                     for pi, p in enumerate(t.parts):
@@ -710,49 +937,87 @@ class Ctx:
                             self.fwd_budget -= 1
                             t.forward(pi, pm)
                             changed = True
+            sf = self.interp.strip_fn
             for t in list(self.terms):
-                ms = list(t.members)
-                for mi, m in enumerate(ms):
-                    for fi, (fc, fn, tag) in enumerate(list(t.all_facts)):
-                        key = (id(t), "all", fi, m.serial)
-                        if key in self._grounded:
-                            continue
-                        self._grounded.add(key)
-                        self.assume(z3.Implies(z3.And(m.cond, fc), fn(m.elem, m.idx)))
-                        changed = True
-                for (i1, m1), (i2, m2) in itertools.permutations(list(enumerate(ms)), 2):
-                    for fi, (fc, fn, tag) in enumerate(list(t.pair_facts)):
-                        key = (id(t), "pair", fi, m1.serial, m2.serial)
-                        if key in self._grounded:
-                            continue
-                        self._grounded.add(key)
-                        self.assume(z3.Implies(z3.And(m1.cond, m2.cond, fc, m1.idx < m2.idx), fn(m1.elem, m2.elem)))
-                        changed = True
-                    for fi, (fc, fn, tag) in enumerate(list(t.adj_facts)):
-                        key = (id(t), "adj", fi, m1.serial, m2.serial)
-                        if key in self._grounded:
-                            continue
-                        self._grounded.add(key)
-                        self.assume(z3.Implies(z3.And(m1.cond, m2.cond, fc, m2.idx == m1.idx + 1), fn(m1.elem, m2.elem)))
-                        changed = True
+                ms = t.members
+                st = self.gs.get(id(t))
+                if st is None:
+                    st = [0, 0, 0, 0]
+                    self.gs[id(t)] = st
+                nm, na, npf, nj = st
+                M, A, P, J = len(ms), len(t.all_facts), len(t.pair_facts), len(t.adj_facts)
+                if (nm, na, npf, nj) == (M, A, P, J):
+                    continue
+                changed = True
+                # idempotence of strip on every string component of a new member (A4)
+                if t.etype is not None:
+                    for m in ms[nm:]:
+                        for p in self.interp.elem_parts(m.elem):
+                            if is_z3(p) and p.sort() == STR:
+                                self.solver.add(sf(sf(p)) == sf(p))
+                for mi in range(M):
+                    m = ms[mi]
+                    lo = 0 if mi >= nm else na
+                    for fi in range(lo, A):
+                        fc, fn, tag = t.all_facts[fi]
+                        self.assume(z3.Implies(z3.And(m.cond, fc), self.inst1(t, fn, m)))
+                if P or J:
+                    for i1 in range(M):
+                        for i2 in range(M):
+                            if i1 == i2:
+                                continue
+                            new_pair = i1 >= nm or i2 >= nm
+                            m1, m2 = ms[i1], ms[i2]
+                            for fi in range(0 if new_pair else npf, P):
+                                fc, fn, tag = t.pair_facts[fi]
+                                self.assume(z3.Implies(z3.And(m1.cond, m2.cond, fc, m1.idx < m2.idx),
+                                                       self.inst2(t, fn, m1, m2)))
+                            for fi in range(0 if new_pair else nj, J):
+                                fc, fn, tag = t.adj_facts[fi]
+                                self.assume(z3.Implies(z3.And(m1.cond, m2.cond, fc, m2.idx == m1.idx + 1),
+                                                       self.inst2(t, fn, m1, m2)))
+                st[0], st[1], st[2], st[3] = M, A, P, J
+
+    # scoped proof attempts -------------------------------------------
+    def scoped(self):
+        """context manager: everything assumed / every witness created inside is discarded afterwards
+        (used for side proofs such as 'this list is already sorted', so that their arbitrary indices
+        do not stay around and multiply instantiations)"""
+        return _Scope(self)
 
     # solving ----------------------------------------------------------
-    def check(self, *extra):
+    def check(self, *extra, quick=False):
         self.ground()
         t0 = time.time()
-        r = self.solver.check(*extra)
+        if quick:
+            self.solver.set("timeout", FEAS_TIMEOUT_MS)
+        try:
+            r = self.solver.check(*extra)
+        finally:
+            if quick:
+                self.solver.set("timeout", SOLVER_TIMEOUT_MS)
+        if r == z3.unknown and not quick:
+            # second opinion from a fresh (non-incremental) solver: different tactic pipeline
+            s2 = z3.Solver()
+            s2.set("timeout", SOLVER_TIMEOUT_MS * 2)
+            s2.add(self.solver.assertions())
+            s2.add(*extra)
+            r = s2.check()
+            STATS["fresh_retries"] = STATS.get("fresh_retries", 0) + 1
+            if r == z3.sat:
+                self._last_model = s2.model()
         STATS["solver_calls"] += 1
         STATS["solver_s"] += time.time() - t0
         return r
 
-    def entails(self, goal):
+    def entails(self, goal, quick=False):
         """True iff goal follows from the path facts (unsat of the negation)."""
         if isinstance(goal, bool):
             return goal
         goal = z3.simplify(goal)
         if z3.is_true(goal):
             return True
-        return self.check(z3.Not(goal)) == z3.unsat
+        return self.check(z3.Not(goal), quick=quick or self.quick_mode) == z3.unsat
 
     def model_for(self, *extra):
         r = self.check(*extra)
@@ -773,8 +1038,8 @@ class Ctx:
         if self.pos < len(self.prefix):
             d = self.prefix[self.pos]
         else:
-            t = self.check(cond)
-            f = self.check(z3.Not(cond))
+            t = self.check(cond, quick=True)
+            f = self.check(z3.Not(cond), quick=True)
             if t == z3.unsat and f == z3.unsat:
                 raise PathAbort()
             if t == z3.unsat:
@@ -791,6 +1056,52 @@ class Ctx:
         if d.flippable or not d.val:
             self.notes.append("%s=%s" % (note, d.val))
         return d.val
+
+
+class _Scope:
+    def __init__(self, ctx):
+        self.ctx = ctx
+
+    def __enter__(self):
+        ctx = self.ctx
+        ctx.ground()
+        ctx.solver.push()
+        self.nterms = len(ctx.terms)
+        self.snap = [(t, len(t.members), len(t.all_facts), len(t.pair_facts), len(t.adj_facts),
+                      len(getattr(t, "_mapped", []))) for t in ctx.terms]
+        self.nfacts = len(ctx.facts)
+        self.gs = {k: list(v) for k, v in ctx.gs.items()}
+        self.hc = dict(ctx.hc)
+        self.nfm = len(ctx.fm_terms)
+        self.nlinks = len(ctx.links)
+        self.nlits = ctx._nlits
+        self.budget = ctx.fwd_budget
+        self.rank_terms = list(ctx.__dict__.get("rank_terms", []))
+        return self
+
+    def __exit__(self, *exc):
+        ctx = self.ctx
+        ctx.solver.pop()
+        for (t, nm, na, np_, nj, nmap) in self.snap:
+            del t.members[nm:]
+            del t.all_facts[na:]
+            del t.pair_facts[np_:]
+            del t.adj_facts[nj:]
+            if hasattr(t, "_mapped"):
+                del t._mapped[nmap:]
+        del ctx.terms[self.nterms:]
+        del ctx.facts[self.nfacts:]
+        ctx.gs = self.gs
+        for (t, nm, na, np_, nj, nmap) in self.snap:
+            t._mkeys = None
+        ctx.hc = self.hc
+        del ctx.fm_terms[self.nfm:]
+        del ctx.links[self.nlinks:]
+        ctx._nlits = self.nlits
+        ctx.fwd_budget = self.budget
+        if "rank_terms" in ctx.__dict__:
+            ctx.rank_terms = self.rank_terms
+        return False
 
 
 class Explorer:
